@@ -7,6 +7,7 @@ require (
 	github.com/coder/websocket v1.8.14
 	github.com/gobwas/ws v1.4.0
 	github.com/jensneuse/abstractlogger v0.0.4
+	github.com/wundergraph/astjson v1.1.0
 	github.com/wundergraph/graphql-go-tools/execution v0.0.0
 	github.com/wundergraph/graphql-go-tools/v2 v2.4.4
 	google.golang.org/grpc v1.80.0
@@ -34,7 +35,6 @@ require (
 	github.com/tidwall/match v1.1.1 // indirect
 	github.com/tidwall/pretty v1.2.1 // indirect
 	github.com/tidwall/sjson v1.2.5 // indirect
-	github.com/wundergraph/astjson v1.1.0 // indirect
 	github.com/wundergraph/cosmo/router v0.0.0-20260611115430-e8a965a40952 // indirect
 	github.com/wundergraph/go-arena v1.3.0 // indirect
 	go.uber.org/multierr v1.11.0 // indirect
